@@ -115,7 +115,7 @@ def full_request(rng, i):
     q = rng.choice([b"", b"?a=1&b=2", b"?x=%41%zz&y=%u0041&&=", b"?" + urlenc_body(rng), b"?a=b#frag", b"?%", b"?+&+=+"])
     path = rng.choice([b"/", b"/a/b", b"/%2e%2e/%2f", b"/a\\b/../c", b"/%u002e/", b"http://h:80/p", b"/" + b"seg/" * rng.randint(1, 20), b"/\xc4\x81\xe2\x82\xac", b"/a%00b"])
     kind = rng.choice(["get", "get", "urlenc", "multipart", "gz", "plain"])
-    method = b"GET" if kind == "get" else rng.choice([b"POST", b"PUT", b"POST"])
+    method = rng.choice([b"GET", b"GET", b"HEAD"]) if kind == "get" else rng.choice([b"POST", b"PUT", b"POST"])
     head = method + b" " + path + q + b" HTTP/1." + rng.choice([b"1", b"0", b"1"]) + b"\r\nHost: " + rng.choice([b"a", b"h:80", b"[::1]:8080", b"H.", b""]) + b"\r\nX-Req: %d\r\n" % i
     for _ in range(rng.randint(0, 2)):
         ck = rng.choice(COOKIES)
@@ -158,7 +158,8 @@ def full_request(rng, i):
 def full_response(rng, i, last):
     enc = rng.choice([None, None, b"gzip", b"gzip", b"deflate", b"x-gzip", b"x-deflate", b"lzma", b"gzip, deflate", b"deflate, gzip", b"gzip,gzip", b"GZIP", b"identity", b"br", b"gzip, " * 5 + b"gzip"])
     payload = rng.choice([b"", b"hello world", b"A" * rng.randint(1, 30000), bytes(rng.randrange(256) for _ in range(rng.randint(0, 300))), (b"abcdefgh" * 40 + b"\r\n") * rng.randint(1, 60)])
-    head = b"HTTP/1.1 " + rng.choice([b"200 OK", b"404 Not Found", b"206 Partial", b"500 X"]) + b"\r\nX-Res: %d\r\n" % i
+    # body-less answers (304, 204, 1xx as a final answer) that nevertheless announce a content coding: the decompressor set up for them is never fed
+    head = b"HTTP/1.1 " + rng.choice([b"200 OK", b"200 OK", b"404 Not Found", b"206 Partial", b"500 X", b"304 Not Modified", b"204 No Content", b"199 Odd"]) + b"\r\nX-Res: %d\r\n" % i
     if enc is not None:
         head += b"Content-Encoding: " + enc + b"\r\n"
     if rng.random() < 0.5:
@@ -172,7 +173,7 @@ def full_cases(ctx, n):
     out = []
     for _ in range(n):
         cfg = sconnp.cfg_str(p=rng.randrange(10), auto=rng.choice([0, 0, 1]), hard=rng.choice([18000, 18000, 400, 90])) + ",full=1"
-        ntx = rng.randint(1, 3)
+        ntx = rng.randint(1, 4)
         rq = [full_request(rng, i) for i in range(ntx)]
         rs = [full_response(rng, i, i == ntx - 1) for i in range(ntx)]
         ops = ["O"]
